@@ -146,8 +146,10 @@ fn check(args: &[String]) -> i32 {
         let _ = std::fs::create_dir_all(format!("{}/replays", orchestrate::out_dir()));
         let path = format!("{}/replays/{prop}-{seed}-{run}-hang.json", orchestrate::out_dir());
         let _ = std::fs::write(&path, serde_json::to_string_pretty(&rf).unwrap());
+        let mut rf = rf;
+        orchestrate::ensure_reproducible(&path, &mut rf, workers);
         println!("VIOLATION property={prop} replay={path}");
-        println!("  class=hang run={run}");
+        println!("  class=hang run={run} {}", rf.detail);
         exit = 1;
         reported += 1;
     }
@@ -157,8 +159,10 @@ fn check(args: &[String]) -> i32 {
         let _ = std::fs::create_dir_all(format!("{}/replays", orchestrate::out_dir()));
         let path = format!("{}/replays/{prop}-{seed}-{run}-process-abort.json", orchestrate::out_dir());
         let _ = std::fs::write(&path, serde_json::to_string_pretty(&rf).unwrap());
+        let mut rf = rf;
+        orchestrate::ensure_reproducible(&path, &mut rf, workers);
         println!("VIOLATION property={prop} replay={path}");
-        println!("  class=process-abort run={run} (not minimised: the failure kills the process) {what}");
+        println!("  class=process-abort run={run} (not minimised: the failure kills the process) {}", rf.detail);
         exit = 1;
         reported += 1;
     }
@@ -305,10 +309,10 @@ fn replay(path: &str) -> i32 {
                     return 0;
                 }
                 Ok(None) => {
-                    if t0.elapsed().as_secs() > orchestrate::HANG_LIMIT_S {
+                    if t0.elapsed().as_secs() > orchestrate::hang_limit_s() {
                         let _ = child.kill();
                         println!("VIOLATION property={} replay={path}", rf.property);
-                        println!("  class=hang: no progress within {} s", orchestrate::HANG_LIMIT_S);
+                        println!("  class=hang: no progress within {} s", orchestrate::hang_limit_s());
                         return 1;
                     }
                     std::thread::sleep(std::time::Duration::from_millis(50));
